@@ -123,6 +123,41 @@ theorem C09_tie_nstBalanceChange_order :
       ["len(rawData)<32", "len(StakerAddrs)==0", "parseBalanceChange", "CacheContext"] ∧
     updateNSTByBalanceChange2.getLast? = some .closeC := by decide
 
+/-- the commit decision of every cache context: either `writeFunc()` is called in straight-line code after
+every failing path has returned (`inline`), or it sits in a deferred closure under `if err == nil` — and then
+`err` must be the function's NAMED RESULT (every `return …, e` assigns it before the closure runs; a `:=`
+inside the body cannot hide it from a return). A deferred decision on a *local* variable is only sound
+without any `:=` redeclaration of it and without returns that bypass it; none exists on the unchanged tree.
+(RegisterAVSWithChainID redeclares `err` twice inside `if err := …; err != nil { return …, err }` — harmless
+there because `err` is a named result.) -/
+theorem C09_tie_cache_commit_decisions :
+    cacheCommitDecisions =
+      [("app/ante/utils/claim_rewards.go:ClaimSufficientStakingRewards", "inline:1"),
+       ("precompiles/assets/tx.go:DepositOrWithdraw", "inline:1"),
+       ("precompiles/assets/tx.go:RegisterToken", "inline:1"),
+       ("x/appchain/coordinator/keeper/ibc_client.go:CreateClientForSubscriberInCachedCtx", "inline:0"),
+       ("x/avs/keeper/avs.go:RegisterAVSWithChainID", "deferred:err:named-result:shadows=2:bare-returns=0"),
+       ("x/delegation/keeper/abci.go:EndBlock", "inline:2"),
+       ("x/delegation/keeper/msg_server.go:DelegateAssetToOperator", "inline:1"),
+       ("x/delegation/keeper/msg_server.go:UndelegateAssetFromOperator", "inline:1"),
+       ("x/dogfood/keeper/validators.go:ApplyValidatorChanges", "inline:3"),
+       ("x/dogfood/keeper/validators.go:ApplyValidatorChanges", "inline:2"),
+       ("x/dogfood/keeper/validators.go:ApplyValidatorChanges", "inline:1"),
+       ("x/evm/keeper/grpc_query.go:EstimateGasInternal", "discarded"),
+       ("x/evm/keeper/state_transition.go:ApplyTransaction", "inline:1"),
+       ("x/operator/keeper/abci.go:UpdateVotingPower", "inline:1"),
+       ("x/operator/keeper/msg_server.go:OptIntoAVS", "deferred:err:named-result:shadows=0:bare-returns=0"),
+       ("x/operator/keeper/msg_server.go:OptOutOfAVS", "deferred:err:named-result:shadows=0:bare-returns=0"),
+       ("x/operator/keeper/slash.go:Slash", "inline:1"),
+       ("x/oracle/keeper/native_token.go:UpdateNSTByBalanceChange", "inline:1")] := by decide
+
+/-- no cache context commits on a local variable that a `:=` hides or a return bypasses -/
+theorem C09_tie_no_shadowed_commit :
+    cacheCommitDecisions.all (fun d =>
+      d.2 ∈ ["discarded", "inline:0", "inline:1", "inline:2", "inline:3",
+             "deferred:err:named-result:shadows=0:bare-returns=0", "deferred:err:named-result:shadows=2:bare-returns=0",
+             "deferred:err:local:shadows=0:bare-returns=0"]) = true := by decide
+
 /-- which callees actually receive the cache context (a `CacheContext()` whose result is not passed on
 protects nothing): Slash, DepositOrWithdraw, RegisterToken, UpdateNSTByBalanceChange -/
 theorem C09_tie_cache_ctx_calls :
